@@ -1,3 +1,4 @@
+import RSV.Props.C17funcs
 import RSV.Props.C04
 import RSV.Props.C17leo
 import RSV.Props.C04gf8
